@@ -5,7 +5,7 @@
 id="$1"; diff="$2"; demo="$3"; shift 3
 d=$(mktemp -d /tmp/cfm-XXXXXX); rmdir "$d"
 git -C /repo worktree add -q --detach "$d" HEAD || exit 3
-orig=$(grep -o "/tmp/mut-C[0-9]*" "$demo" | head -1)
+orig=$(grep -o "/tmp/mut[0-9]*-C[0-9]*" "$demo" | head -1)
 sed "s#${orig:-/nonexistent}#$d#g" "$demo" > "$d/_demo.py"
 (cd "$d" && timeout 120 /venv/bin/python _demo.py >/dev/null 2>&1); clean=$?
 git -C "$d" apply "$diff" || { echo "$id: PATCH DOES NOT APPLY"; git -C /repo worktree remove --force "$d"; exit 3; }
